@@ -288,7 +288,7 @@ class Body:
 
     def single_def(self, local):
         ds = self.defs().get(local, [])
-        if len(ds) == 1 and ds[0][2].get("k") != "partial" and local > self.arg_count:
+        if len(ds) == 1 and ds[0][2].get("k") != "partial" and (local > self.arg_count or local == 0):
             return ds[0]
         return None
 
@@ -361,16 +361,36 @@ def callee_name(t):
     return t.get("callee") or ""
 
 
-_GENERIC_RE = re.compile(r"::<[^<>]*(?:<[^<>]*(?:<[^<>]*>[^<>]*)*>[^<>]*)*>")
-
-
 def strip_generics(path):
-    """std::collections::HashSet::<T, S>::insert -> std::collections::HashSet::insert"""
-    prev = None
-    while prev != path:
-        prev = path
-        path = _GENERIC_RE.sub("", path)
-    return path
+    """std::collections::HashSet::<T, S>::insert -> std::collections::HashSet::insert.
+    `::<impl Trait for Type>::` segments are path components, not generic arguments, and are kept."""
+    if "::<" not in path:
+        return path
+    out = []
+    i = 0
+    n = len(path)
+    while i < n:
+        if path.startswith("::<", i):
+            # find the matching '>'
+            depth = 0
+            j = i + 2
+            while j < n:
+                ch = path[j]
+                if ch == "<":
+                    depth += 1
+                elif ch == ">" and path[j - 1] != "-":
+                    depth -= 1
+                    if depth == 0:
+                        break
+                j += 1
+            content = path[i + 3:j]
+            if content.startswith("impl "):
+                out.append(path[i:j + 1])
+            i = j + 1
+        else:
+            out.append(path[i])
+            i += 1
+    return "".join(out)
 
 
 def callee_is(t, *names):
@@ -433,8 +453,26 @@ class Sym:
         if "static" in c:
             return ("static", c["static"])
         if "promoted" in c:
-            return ("promoted", "%s::{promoted#%d}" % (c["promoted_of"], c["promoted"]), c["ty"])
+            key = "%s::{promoted#%d}" % (c["promoted_of"], c["promoted"])
+            v = self._eval_promoted(key)
+            if v is not None:
+                return v
+            return ("promoted", key, c["ty"])
         return ("const", c.get("disp"), c["ty"])
+
+    def _eval_promoted(self, key):
+        """A promoted constant whose body just builds a value (`&Variant{}`, `&"str"`, `&[..]`)."""
+        if self.ix is None or key not in self.ix.bodies:
+            return None
+        pb = self.ix.bodies[key]
+        if len(pb.blocks) > 2 or any(blk.term["k"] == "call" for blk in pb.blocks):
+            return None
+        try:
+            e = Sym(pb, self.ix, max_depth=12).local(0)
+        except RecursionError:
+            return None
+        bad = [x for x in walk(e) if isinstance(x, tuple) and x and x[0] in ("var", "unknown", "arg")]
+        return None if bad else e
 
     def local(self, l, depth=0):
         body = self.body
